@@ -21,6 +21,26 @@ func (r *verifFailReader) Read(p []byte) (int, error) {
 	return n, nil
 }
 
+// verifCloseReader delivers one byte per Read and calls Close() on the parser while the read
+// with index closeAt is in progress (Close requested while the reader is blocked).
+type verifCloseReader struct {
+	verifFailReader
+	p       *Parser
+	closeAt int
+	reads   int
+}
+
+func (r *verifCloseReader) Read(b []byte) (int, error) {
+	if r.reads == r.closeAt {
+		r.p.Close()
+	}
+	r.reads++
+	if len(b) > 1 {
+		b = b[:1]
+	}
+	return r.verifFailReader.Read(b)
+}
+
 type verifIOError struct{}
 
 func (verifIOError) Error() string { return "input/output error" }
@@ -43,9 +63,15 @@ func VerifC08RunEnds() {
 	closedFirst := zzverif.Bool("closeFirst")
 	if closedFirst {
 		p.Close()
+	} else if zzverif.Bool("closeDuringRead") {
+		// Close() arrives while a read is blocked; that read then returns one more byte
+		p.r = bufio.NewReader(&verifCloseReader{verifFailReader: verifFailReader{data: b, err: err}, p: p, closeAt: zzverif.Choose("closeAt", n+1)})
 	}
 	zzverif.Terminates(400)
 	p.run()
+	// whatever timer is still armed fires now: nothing may be delivered after the end marker
+	// (a send on the closed channel panics)
+	zzverif.LetTimePass()
 	eofs, last := 0, false
 	count := 0
 	for s := range p.sequences {
